@@ -90,6 +90,12 @@ func (s *Store) kvsDeleteTreeTxn(tx WriteTxn, idx uint64, prefix string, entMeta
 	}
 
 	if deleted {
+		// The tombstones under the prefix are subsumed by this delete: drop them, so
+		// that a listing on a longer prefix (which the tree's own tombstone is not
+		// under) falls back to the table index instead of an older tombstone.
+		if _, err := tx.DeletePrefix(tableTombstones, indexID+"_prefix", prefix); err != nil {
+			return fmt.Errorf("failed clearing tombstones under the deleted tree: %s", err)
+		}
 		if prefix != "" { // don't insert a tombstone if the entire tree is deleted, all watchers on keys will see the max_index of the tree
 			if err := s.kvsGraveyard.InsertTxn(tx, prefix, idx, entMeta); err != nil {
 				return fmt.Errorf("failed adding to graveyard: %s", err)
